@@ -163,6 +163,10 @@ func genArchive(r *Rng, thorough bool) (es []tEntry, many bool) {
 			isFile[p] = true
 		}
 	}
+	// an entry for the root itself (what `tar -C dir -cf x.tar .` writes): its permission bits are the root's
+	if r.Intn(4) == 0 && !many {
+		es = append(es, tEntry{name: []string{"./", ".", "/", "a/.."}[r.Intn(4)], isDir: true, perm: []uint32{0o755, 0o700, 0o750, 0o711, 0o555}[r.Intn(5)]})
+	}
 	// entry order: children before parents happens by shuffling
 	for i := len(es) - 1; i > 0; i-- {
 		j := r.Intn(i + 1)
@@ -361,6 +365,20 @@ func runC12(r *Rng, n int, replay string) {
 				if !w.isDir && !bytes.Equal(g.Bytes, w.data) {
 					c.fail(fmt.Sprintf("%s: %q holds %d bytes that differ from the entry's %d bytes", hdr, p, len(g.Bytes), len(w.data)), "bytes")
 					break
+				}
+			}
+			// an entry for the root carries the root's permission bits (the last one wins)
+			rootPerm := int64(-1)
+			for _, e := range es {
+				if e.isDir && resolveRef(e.name) == "." {
+					rootPerm = int64(e.perm & 0o777)
+				}
+			}
+			if rootPerm >= 0 && c.Oracle == "" {
+				if info, err := hackpadfs.Stat(tfs, "."); err != nil {
+					c.fail(hdr+": cannot stat the root: "+err.Error(), "root-stat")
+				} else if int64(info.Mode().Perm()) != rootPerm {
+					c.fail(fmt.Sprintf("%s: the root has permission bits %04o, its entry says %04o", hdr, info.Mode().Perm(), rootPerm), "perm-root")
 				}
 			}
 			for p := range got {
